@@ -124,7 +124,19 @@ func streamEval(c *Ctx, cs Case, prop string) {
 		return
 	}
 	if dt > 3*time.Second {
-		fail(fmt.Sprintf("decoding %d bytes took %v", len(b), dt), "")
+		// re-measured before it is judged (a busy machine has been seen to stall a 264-byte decode for 3.5 s once)
+		for try := 0; try < 2 && dt > 3*time.Second; try++ {
+			c.Class(prop + "/time-verdict-remeasured")
+			t1 := time.Now()
+			s2 := newSrcReader(readerKinds[(len(b)+int(crc32.ChecksumIEEE(b)))%len(readerKinds)], b)
+			safely(func() { signature.ReadSignatureDatabase(s2.r) })
+			if d2 := time.Since(t1); d2 < dt {
+				dt = d2
+			}
+		}
+		if dt > 3*time.Second {
+			fail(fmt.Sprintf("decoding %d bytes took %v (best of three runs)", len(b), dt), "")
+		}
 	}
 	specLists := []specList(nil)
 	specOK := strings.HasPrefix(spec, "some ")
